@@ -677,6 +677,11 @@ func runModel(ctx context.Context, w *rec.Writer, seed uint64, i int, tier strin
 		m = scen.C18Witness()
 	} else if i < 9 {
 		m = scen.C18Custom(r, i) // every hand-made shape once per run
+	} else if i == 9 || (i > 11 && r.Chance(1, 25)) {
+		m = scen.C18Collisions(r) // names whose concatenations collide, once per run and now and then
+	} else if i == 10 || i == 11 {
+		m = scen.C18Custom(r, []int{0, 2}[i-10]) // kind-mix and tupleset under separator-rich names
+		scen.C18Rename(r, m)
 	} else if r.Chance(1, 2) {
 		// prefer models the validator accepts (three attempts), keep a refused one otherwise
 		for k := 0; k < 3; k++ {
@@ -687,6 +692,9 @@ func runModel(ctx context.Context, w *rec.Writer, seed uint64, i int, tier strin
 		}
 	} else {
 		m = scen.C18Custom(r, -1)
+	}
+	if !witness && i > 11 && m.Shape != "name-collisions" && r.Chance(1, 3) {
+		scen.C18Rename(r, m) // separator-rich names are a standing ingredient
 	}
 	e, err := newEnv(ctx, m, resolver)
 	if err != nil {
@@ -882,10 +890,229 @@ func runModel(ctx context.Context, w *rec.Writer, seed uint64, i int, tier strin
 			w.Case(d, append([]rec.V{rec.I(2), envV, modelV, cdsV, rec.I(ctxLimit), rec.I(maxWrite)}, vs...)...)
 		}
 	}
+	hd := mdesc{Seed: seed, I: i, W: witness, G: -1, Tier: tier, Shape: m.Shape}
+	e.sequences(w, r, all, allObs, tier, hd)
+	e.sameShapeBatches(ctx, w, r, all, allObs, tier, emitFor)
 	e.mixedBatches(ctx, w, r, accepted, all, allObs, emitFor)
 	e.pairBatches(ctx, w, r, hpairs, emitFor)
 	for b := 0; b < bud.batches; b++ {
 		e.batch(ctx, w, r, accepted, all, emitFor("random"))
+	}
+}
+
+// wellFormed: ValidateUserObjectRelation passes (the tuple reaches the restriction checks).
+func (e *menv) wellFormed(t tcase) bool {
+	return validation.ValidateUserObjectRelation(e.ts, t.proto()) == nil
+}
+
+func seqText(ts []tcase) string {
+	var p []string
+	for _, t := range ts {
+		x := t.key()
+		if t.HasCond {
+			x += fmt.Sprintf(" (condition %s %v)", t.CondName, ctxMap(t))
+		}
+		p = append(p, x)
+	}
+	return "[" + strings.Join(p, ", ") + "]"
+}
+
+// sequences: validation must be a function of (model, tuple) only.  Tuples of DIFFERENT
+// (object type, relation) pairs are validated one after the other on ONE fresh typesystem: every
+// ordered pair (both orders) of a pool, and shuffled sequences of 3-6; the verdict for a tuple must
+// be its verdict when it is validated first (alone), and the one observed on the shared typesystem.
+func (e *menv) sequences(w *rec.Writer, r *rec.Rand, all []tcase, allObs []int, tier string, d mdesc) {
+	type item struct {
+		t      tcase
+		shared int
+	}
+	byPair := map[string][]item{}
+	var order []string
+	for k, t := range all {
+		if t.HasCond && t.Tag != "fit" {
+			continue
+		}
+		pk := t.Obj + "#" + t.Rel
+		if allObs[k] != clOK && (len(byPair[pk]) > 0 && byPair[pk][len(byPair[pk])-1].shared != clOK || !e.wellFormed(t)) {
+			continue // of the refused ones only the first well-formed one after the accepted ones
+		}
+		if _, ok := byPair[pk]; !ok {
+			order = append(order, pk)
+		}
+		if len(byPair[pk]) < 4 {
+			byPair[pk] = append(byPair[pk], item{t, allObs[k]})
+		}
+	}
+	var pool []item
+	poolPair := []int{}
+	for pi, pk := range order {
+		for _, it := range byPair[pk] {
+			pool = append(pool, it)
+			poolPair = append(poolPair, pi)
+		}
+	}
+	if len(pool) < 2 {
+		return
+	}
+	nPairs, nLong := 30, 6
+	if tier == "thorough" {
+		nPairs, nLong = 150, 20
+	}
+	// pairs whose "type<sep>relation" strings coincide come first (all of them, capped), the rest at random
+	joined := func(k int) map[string]bool {
+		t := pool[k].t
+		ot, _ := scen.SplitObj(t.Obj)
+		out := map[string]bool{}
+		for _, sep := range []string{"", "-", "_", ".", "/", "|", "#", ":", " "} {
+			out[sep+"\x00"+ot+sep+t.Rel] = true
+		}
+		return out
+	}
+	type op struct{ a, b int }
+	var ops, colliding []op
+	for a := range pool {
+		ja := joined(a)
+		for b := a + 1; b < len(pool); b++ {
+			if poolPair[a] == poolPair[b] {
+				continue
+			}
+			hit := false
+			for k := range joined(b) {
+				if ja[k] {
+					hit = true
+				}
+			}
+			if hit {
+				colliding = append(colliding, op{a, b})
+			} else {
+				ops = append(ops, op{a, b})
+			}
+		}
+	}
+	rec.Shuffle(r, ops)
+	rec.Shuffle(r, colliding)
+	if len(colliding) > 2*nPairs {
+		colliding = colliding[:2*nPairs]
+	}
+	if len(ops) > nPairs {
+		ops = ops[:nPairs]
+	}
+	w.Stat("sequences_colliding_names", len(colliding))
+	ops = append(colliding, ops...)
+	alone := map[int]int{}
+	report := func(seq []int, pos, got, want int) {
+		var ts []tcase
+		for _, k := range seq {
+			ts = append(ts, pool[k].t)
+		}
+		w.PropFail(fmt.Sprintf("validation depends on history: %s is %s when validated alone but %s at position %d of the sequence %s on one typesystem",
+			pool[seq[pos]].t.key(), clNames[want], clNames[got], pos, seqText(ts)), d)
+	}
+	run := func(seq []int) {
+		var ts []tcase
+		for _, k := range seq {
+			ts = append(ts, pool[k].t)
+		}
+		got := e.fresh(ts)
+		w.Stat("sequences_on_one_typesystem", 1)
+		if _, ok := alone[seq[0]]; !ok {
+			alone[seq[0]] = got[0]
+			if got[0] != pool[seq[0]].shared {
+				w.PropFail(fmt.Sprintf("validation depends on history: %s is %s on a fresh typesystem and %s on the one that validated other tuples before",
+					pool[seq[0]].t.key(), clNames[got[0]], clNames[pool[seq[0]].shared]), d)
+			}
+		}
+		for pos, k := range seq {
+			want, ok := alone[k]
+			if !ok {
+				want = e.fresh([]tcase{pool[k].t})[0]
+				alone[k] = want
+			}
+			if got[pos] != want {
+				report(seq, pos, got[pos], want)
+			}
+		}
+	}
+	for _, o := range ops {
+		run([]int{o.a, o.b})
+		run([]int{o.b, o.a})
+	}
+	for k := 0; k < nLong; k++ {
+		n := r.Range(3, 6)
+		idx := make([]int, len(pool))
+		for j := range idx {
+			idx[j] = j
+		}
+		rec.Shuffle(r, idx)
+		if n > len(idx) {
+			n = len(idx)
+		}
+		run(idx[:n])
+	}
+}
+
+// sameShapeBatches: Write requests mixing a VALID and an INVALID tuple of the same shape (same
+// object type, relation and user type; they differ by wildcard-ness, userset relation or condition)
+// in both orders and with a second valid one in front: accepted iff every tuple is valid.
+func (e *menv) sameShapeBatches(ctx context.Context, w *rec.Writer, r *rec.Rand, all []tcase, allObs []int, tier string,
+	emitFor func(string) func(vs ...rec.V)) {
+	type bucket struct{ ok, bad []tcase }
+	bk := map[string]*bucket{}
+	var order []string
+	for k, t := range all {
+		if t.Tag != "nocond" && t.Tag != "fit" {
+			continue
+		}
+		if t.User == t.Obj+"#"+t.Rel {
+			continue
+		}
+		ut, _, _ := scen.SplitUser(t.User)
+		key := t.Obj + "#" + t.Rel + "@" + ut
+		if allObs[k] != clOK && !e.wellFormed(t) {
+			continue
+		}
+		b := bk[key]
+		if b == nil {
+			b = &bucket{}
+			bk[key] = b
+			order = append(order, key)
+		}
+		if allObs[k] == clOK {
+			b.ok = append(b.ok, t)
+		} else {
+			b.bad = append(b.bad, t)
+		}
+	}
+	var keys []string
+	for _, k := range order {
+		if len(bk[k].ok) > 0 && len(bk[k].bad) > 0 {
+			keys = append(keys, k)
+		}
+	}
+	rec.Shuffle(r, keys)
+	max := 8
+	if tier == "thorough" {
+		max = 40
+	}
+	if len(keys) > max {
+		keys = keys[:max]
+	}
+	at := func(t tcase, k int) tcase {
+		ot, _ := scen.SplitObj(t.Obj)
+		t.Obj = fmt.Sprintf("%s:s%d", ot, k)
+		return t
+	}
+	for _, k := range keys {
+		b := bk[k]
+		good, good2, bad := rec.Pick(r, b.ok), rec.Pick(r, b.ok), rec.Pick(r, b.bad)
+		for _, ws := range [][]tcase{
+			{at(good, 0), at(bad, 1)},
+			{at(bad, 0), at(good, 1)},
+			{at(good, 0), at(good2, 1), at(bad, 2)},
+			{at(good, 0), at(bad, 1), at(good2, 2)},
+		} {
+			e.execBatch(ctx, w, "sameshape", ws, nil, "", "", false, false, emitFor("sameshape"))
+		}
 	}
 }
 
